@@ -1014,7 +1014,15 @@ impl OptimizerRule for PushDownFilter {
                 // even for empty input, so no predicate (not even a column-free one,
                 // e.g. a comparison with an uncorrelated scalar subquery) may move
                 // below it: that would keep the row the filter is meant to remove.
-                let can_push = !agg.group_expr.is_empty();
+                // The same holds for GROUPING SETS / CUBE / ROLLUP: the empty grouping
+                // set yields a row for empty input, and a grouping set that leaves a
+                // column out yields rows in which that column is NULL whatever the
+                // input rows contain.
+                let can_push = !agg.group_expr.is_empty()
+                    && !agg
+                        .group_expr
+                        .iter()
+                        .any(|e| matches!(e, Expr::GroupingSet(_)));
                 for expr in predicates {
                     let cols = expr.column_refs();
                     if can_push && cols.iter().all(|c| group_expr_columns.contains(c)) {
